@@ -309,6 +309,109 @@ Proof.
   destruct (span_sampled_flag_is_decision (SRatio r) e g rnd x) as [_ B]. cbv zeta in B. now rewrite B.
 Qed.
 
+(* ------------------------------------------------------------------ the parent chosen from the contexts *)
+
+Lemma start_span_is_at s e g rnd x : start_span s e g rnd x = start_span_at s (effective_parent e) g rnd x.
+Proof. reflexivity. Qed.
+
+Lemma span_at_facts s parent g rnd x :
+  let st := start_span_at s parent g rnd x in
+  st_flags st = (if is_sampled (fst (should_sample s parent (st_tid st) x)) then 1 else 0) /\
+  st_tid st = (if ctx_valid parent then c_tid parent else g) /\
+  st_ts st = (match snd (should_sample s parent (st_tid st) x) with
+              | Some h => h
+              | None => if ctx_valid parent then c_ts parent else ts_default
+              end).
+Proof.
+  cbv zeta. unfold start_span_at. cbn [st_flags st_tid st_ts].
+  change c12_kIsSampled with 1. change c12_kAllW3CTraceContext1Flags with 1. change (255 - 1) with 254.
+  split; [|split; reflexivity].
+  destruct (is_sampled (fst (should_sample s parent (if ctx_valid parent then c_tid parent else g) x)));
+    [apply land_lor_1 | apply land_254_1].
+Qed.
+
+(* S5: a valid span held by the context given as parent IS the parent, whether or not the context is also marked is_root_span *)
+Theorem context_span_is_parent_regardless_of_marker active c marker :
+  ctx_valid c = true -> tracer_parent active (PaContext (Some c) marker) = c.
+Proof. intros V. cbn [tracer_parent span_in]. now rewrite V. Qed.
+
+(* the parent the tracer picks is the one span_startoptions.h documents *)
+Theorem tracer_parent_is_documented_parent active a :
+  documented_parent active a =
+  (if ctx_valid (tracer_parent active a) then Some (tracer_parent active a) else None).
+Proof.
+  assert (I : ctx_valid ctx_invalid = false) by reflexivity.
+  destruct a as [c|[c|] m]; cbn [documented_parent tracer_parent span_in].
+  - destruct (ctx_valid c) eqn:V; [now rewrite V | reflexivity].
+  - destruct (ctx_valid c) eqn:V; [now rewrite V|]. destruct m; [now rewrite I | reflexivity].
+  - rewrite I. destruct m; [now rewrite I | reflexivity].
+Qed.
+
+Theorem parent_based_span_cx_inherits d cs a g rnd x p :
+  documented_parent (span_in cs) a = Some p ->
+  let st := start_span_cx (SParent d) cs a g rnd x in
+  st_tid st = c_tid p /\ st_flags st = (if ctx_sampled p then 1 else 0) /\ st_ts st = c_ts p /\
+  root_sampler_calls (SParent d) cs a = 0.
+Proof.
+  intros D. rewrite tracer_parent_is_documented_parent in D.
+  destruct (ctx_valid (tracer_parent (span_in cs) a)) eqn:V; [|discriminate]. injection D as <-.
+  cbv zeta. unfold start_span_cx, root_sampler_calls.
+  set (q := tracer_parent (span_in cs) a) in *.
+  destruct (span_at_facts (SParent d) q g rnd x) as (A & B & C). cbv zeta in *.
+  rewrite V in B. rewrite A, C, B.
+  destruct (parent_based_spec d q (c_tid q) x) as [[P K] _]; [exact V|]. rewrite P, K. cbn [fst snd].
+  repeat split. destruct (ctx_sampled q); reflexivity.
+Qed.
+
+(* S6: the root sampler is consulted exactly when there is no documented parent, and then the span is on the generated trace id *)
+Theorem root_sampler_only_without_parent d cs a g rnd x :
+  documented_parent (span_in cs) a = None ->
+  root_sampler_calls (SParent d) cs a = 1 /\ st_tid (start_span_cx (SParent d) cs a g rnd x) = g.
+Proof.
+  intros D. rewrite tracer_parent_is_documented_parent in D.
+  destruct (ctx_valid (tracer_parent (span_in cs) a)) eqn:V; [discriminate|].
+  unfold root_sampler_calls, delegate_calls, start_span_cx. rewrite V. split; [reflexivity|].
+  destruct (span_at_facts (SParent d) (tracer_parent (span_in cs) a) g rnd x) as (_ & B & _). cbv zeta in B. now rewrite B, V.
+Qed.
+
+Lemma spec_span_cx_ok s cs a g rnd x :
+  spec_start_span_cx s cs a g (start_span_cx s cs a g rnd x) (root_sampler_calls s cs a) = [].
+Proof.
+  unfold spec_start_span_cx.
+  destruct (span_at_facts s (tracer_parent (span_in cs) a) g rnd x) as (A & B & C). cbv zeta in *.
+  fold (start_span_cx s cs a g rnd x) in A, B, C.
+  assert (F01 : (st_flags (start_span_cx s cs a g rnd x) =? 0) || (st_flags (start_span_cx s cs a g rnd x) =? 1) = true).
+  { rewrite A. destruct (is_sampled _); reflexivity. }
+  rewrite F01. cbn [check app].
+  destruct (documented_parent (span_in cs) a) as [p|] eqn:D.
+  - destruct s as [| |r|d].
+    + rewrite tracer_parent_is_documented_parent in D.
+      destruct (ctx_valid (tracer_parent (span_in cs) a)) eqn:V; [|discriminate]. injection D as <-.
+      rewrite B, bytes_eqb_refl, A. reflexivity.
+    + rewrite tracer_parent_is_documented_parent in D.
+      destruct (ctx_valid (tracer_parent (span_in cs) a)) eqn:V; [|discriminate]. injection D as <-.
+      rewrite B, bytes_eqb_refl, A. reflexivity.
+    + rewrite tracer_parent_is_documented_parent in D.
+      destruct (ctx_valid (tracer_parent (span_in cs) a)) eqn:V; [|discriminate]. injection D as <-.
+      rewrite B, bytes_eqb_refl, A. cbn [check app]. unfold ratio_le0, ratio_ge1.
+      destruct (fle f_one r) eqn:G.
+      * rewrite (ge1_not_le0 r G), (ratio_ge1_all r _ _ x G). reflexivity.
+      * destruct (fle r f_zero) eqn:L; [|reflexivity]. rewrite (ratio_le0_none r _ _ x L). reflexivity.
+    + destruct (parent_based_span_cx_inherits d cs a g rnd x p D) as (T & F & S & K). cbv zeta in *.
+      rewrite T, F, S, K, !bytes_eqb_refl. destruct (ctx_sampled p); reflexivity.
+  - rewrite tracer_parent_is_documented_parent in D.
+    destruct (ctx_valid (tracer_parent (span_in cs) a)) eqn:V; [discriminate|].
+    rewrite B, bytes_eqb_refl. cbn [check app].
+    destruct s as [| |r|d].
+    + rewrite A. reflexivity.
+    + rewrite A. reflexivity.
+    + rewrite A. unfold ratio_le0, ratio_ge1.
+      destruct (fle f_one r) eqn:G.
+      * rewrite (ge1_not_le0 r G), (ratio_ge1_all r _ _ x G). reflexivity.
+      * destruct (fle r f_zero) eqn:L; [|reflexivity]. rewrite (ratio_le0_none r _ _ x L). reflexivity.
+    + unfold root_sampler_calls, delegate_calls. rewrite V. reflexivity.
+Qed.
+
 (* printers and parsers of observations agree *)
 Lemma parse_print_decision d : parse_decision (print_decision d) = Some d.
 Proof. destruct d; reflexivity. Qed.
@@ -332,6 +435,8 @@ Proof.
     rewrite spec_dep_ok, !spec_ss_ok. reflexivity.
   - cbv zeta. unfold print_started at 1. cbn [app]. fold (print_started (start_span s p gen_tid random x)).
     rewrite parse_print_started, spec_span_ok. cbn [app]. apply spec_participants_ok.
+  - unfold print_started at 1. cbn [app]. fold (print_started (start_span_cx s cur_span a gen_tid random x)).
+    rewrite parse_print_started. apply spec_span_cx_ok.
   - destruct (description s); reflexivity.
 Qed.
 
@@ -390,3 +495,14 @@ Example model_meets_spec_nonvacuous :
   run_model [tag "MONO"; TZ 4598175219545276416; TZ 4602678819172646912; TB ex_tid_mid] =
     [TZ 4611686018427387903; TZ 9223372036854775807; tag "DROP"; tag "RECORD_AND_SAMPLE"].
 Proof. eexists. split; vm_compute; reflexivity. Qed.
+
+Example context_parent_nonvacuous :
+  ctx_valid ex_parent_valid = true /\
+  (* marker + valid span: the span is the parent; marker only: no parent; neither: the active span *)
+  documented_parent ex_parent_unsampled (PaContext (Some ex_parent_valid) true) = Some ex_parent_valid /\
+  documented_parent ex_parent_unsampled (PaContext None true) = None /\
+  documented_parent ex_parent_unsampled (PaContext (Some ex_parent_invalid) true) = None /\
+  documented_parent ex_parent_unsampled (PaContext (Some ex_parent_invalid) false) = Some ex_parent_unsampled /\
+  st_flags (start_span_cx (SParent SAlwaysOff) None (PaContext (Some ex_parent_valid) true) ex_tid_mid false ex_extra) = 1 /\
+  root_sampler_calls (SParent SAlwaysOff) None (PaContext None true) = 1.
+Proof. vm_compute. repeat split. Qed.
